@@ -946,3 +946,43 @@ func refDefaultCase(i int) *sem.Case {
 	}
 	return c
 }
+
+// identifierCollisionCase: an explicit goJSONSchema identifier that equals the name derived for a sibling, with the
+// sibling sorting before or after it (and both at once): distinct fields, every key bound to its own field.
+func identifierCollisionCase(i int) *sem.Case {
+	pairs := []struct{ plain, withID, ident string }{
+		{"userID", "user_id", "UserID"}, // the derived sibling sorts first
+		{"user_ID", "userId", "UserID"}, // the explicit one sorts first
+		{"name", "zzz", "Name"},
+		{"aaa", "Aaa2", "Aaa"},
+	}
+	p := pairs[i%len(pairs)]
+	str := func() *sg.Schema { return &sg.Schema{Types: []string{"string"}, MinLen: 1} }
+	with := str()
+	with.Ext = jsonx.Obj{{K: "identifier", V: p.ident}}
+	obj := &sg.Schema{Types: []string{"object"}, Props: []sg.Prop{{Name: p.plain, S: str()}, {Name: p.withID, S: with}, {Name: "other", S: &sg.Schema{Types: []string{"integer"}}}}}
+	if (i/4)%2 == 1 {
+		obj.Required = []string{p.plain, p.withID}
+	}
+	if (i/8)%2 == 1 {
+		// a third property that also wants the identifier
+		w2 := str()
+		w2.Ext = jsonx.Obj{{K: "identifier", V: p.ident}}
+		obj.Props = append(obj.Props, sg.Prop{Name: "m_" + p.withID, S: w2})
+	}
+	root := &sg.Schema{Types: []string{"object"}, Props: []sg.Prop{{Name: "rec", S: obj}}}
+	c := &sem.Case{Root: root, Sig: fmt.Sprintf("identifier-collision/%d", i%16)}
+	full := jsonx.Obj{}
+	for k, pr := range obj.Props {
+		if pr.Name == "other" {
+			full = append(full, jsonx.KV{K: "other", V: jsonx.N(7)})
+		} else {
+			full = append(full, jsonx.KV{K: pr.Name, V: fmt.Sprintf("value-%d", k)})
+		}
+	}
+	c.Docs = append(c.Docs, docgen.Doc{V: jsonx.Obj{{K: "rec", V: full}}, Class: "collision", Label: "all-keys"})
+	for _, kv := range full {
+		c.Docs = append(c.Docs, docgen.Doc{V: jsonx.Obj{{K: "rec", V: jsonx.Obj{kv}}}, Class: "collision", Label: "only-" + kv.K}, docgen.Doc{V: jsonx.Obj{{K: "rec", V: full.Del(kv.K)}}, Class: "collision", Label: "without-" + kv.K})
+	}
+	return c
+}
